@@ -7,6 +7,7 @@ import AmaranthVerif.Proofs.FormatGroupLen
 import AmaranthVerif.Proofs.FormatRender
 import AmaranthVerif.Proofs.FormatProc
 import AmaranthVerif.Proofs.FormatDsl
+import AmaranthVerif.Proofs.PrintJoin
 
 /-!
 # C20 — Print, Assert and Format match Python formatting at the right instants
@@ -24,6 +25,8 @@ nesting, and event sequence of any length. A Python `str` is its list of code po
   `sign_correct`,
   `digits_roundtrip`, `digits_roundtrip_grouped`;
 * the glue of `emit_format`: `escape_roundtrip`, `s_rewrite`, `value_in_shape`, `emitted_text`, `tb_text`;
+* `Print(*args, sep=, end=)` (`Model/PrintJoin.lean` = `Print.__init__` + `Format._clean_chunks`): `print_join_text`,
+  `print_join_error`, `clean_keeps_text`, `clean_form`, `clean_idempotent`;
 * instants: `print_when_active`, `print_when_active_dsl`, `assert_first_failure`, `assertion_is_first_failing`;
 * the two repaired defects as refuting witnesses of the code as found: `f20_witness`, `f4_witness`.
 
@@ -263,6 +266,58 @@ example : EnvOk exCtx exEnv := by
   | n + 2 => simp [Ctx.shape, Env.val, exCtx, exEnv, Shape.WF, Shape.contains, Shape.lo, Shape.hi, Shape.u]
 example : render true exCtx exEnv exMsg = .ok "{a} 0xc8 +197|  A".toList := by decide
 example : specText exCtx exEnv exMsg = .ok "{a} 0xc8 +197|  A".toList := by decide
+
+/-! ## `Print(*args, sep=, end=)`: how the arguments are joined
+
+`printChunks` is the loop of `Print.__init__` followed by `Format._clean_chunks`; an argument is given by
+the chunks of `Format("{}", arg)`. The driver compares `printChunks` *structurally* with the chunks of the
+`Print` object the implementation built on every generated case (`pjoin`). -/
+
+/-- `_clean_chunks` (dropping empty literals, merging adjacent ones) never changes the text. -/
+theorem clean_keeps_text (ctx : Ctx) (env : Env) (cs : List Chunk) :
+    specText ctx env (cleanChunks cs) = specText ctx env cs :=
+  specText_cleanChunks ctx env cs
+
+/-- What `_clean_chunks` returns has no empty literal and no two adjacent literals … -/
+theorem clean_form (cs : List Chunk) : cleanForm (cleanChunks cs) = true :=
+  cleanChunks_cleanForm cs
+
+/-- … and such a list is a fixed point: cleaning twice is cleaning once. -/
+theorem clean_idempotent (cs : List Chunk) : cleanChunks (cleanChunks cs) = cleanChunks cs :=
+  cleanChunks_of_cleanForm _ (cleanChunks_cleanForm cs)
+
+/-- The message of `Print(*args, sep=sep, end=end_)` reads as Python's `print` writes: when every
+argument alone has the text `tᵢ`, the message has the text `sep.join(t) + end` — for any number of
+arguments, empty texts at any position, empty or non-empty `sep` and `end`. -/
+theorem print_join_text (ctx : Ctx) (env : Env) (args : List (List Chunk)) (ts : List PyStr)
+    (sep end_ : PyStr) (h : TextsOf ctx env args ts) :
+    specText ctx env (printChunks args sep end_) = .ok (List.intercalate sep ts ++ end_) := by
+  unfold printChunks
+  rw [specText_cleanChunks, specText_append, specText_printRaw_true ctx env sep args ts h,
+    joinTexts_eq_intercalate]
+  by_cases he : end_ = [] <;> simp [he, specText, appE, prependE]
+
+/-- When an argument cannot be formatted (and those before it can), the whole message fails with that
+argument's error. -/
+theorem print_join_error (ctx : Ctx) (env : Env) (pre : List (List Chunk)) (ts : List PyStr)
+    (bad : List Chunk) (post : List (List Chunk)) (e : PyErr) (sep end_ : PyStr)
+    (h : TextsOf ctx env pre ts) (hb : specText ctx env bad = .error e) :
+    specText ctx env (printChunks (pre ++ bad :: post) sep end_) = .error e := by
+  unfold printChunks
+  rw [specText_cleanChunks, specText_append, specText_printRaw_error ctx env sep true pre ts bad post e h hb]
+  rfl
+
+/-- `Print("", x, Format(""), "}x", sep="+", end="")` -/
+def exJoinArgs : List (List Chunk) := [[], [.val (.sig 0) []], [], [.lit "}x".toList]]
+example : printChunks exJoinArgs "+".toList [] =
+    [.lit "+".toList, .val (.sig 0) [], .lit "++}x".toList] := by rfl
+example : TextsOf exCtx exEnv exJoinArgs [[], "200".toList, [], "}x".toList] :=
+  .cons (by decide) (.cons (by decide) (.cons (by decide) (.cons (by decide) .nil)))
+example : specText exCtx exEnv (printChunks exJoinArgs "+".toList []) = .ok "+200++}x".toList := by decide
+/-- an argument that cannot be formatted (`-3` under `c`): the premise of `print_join_error` is met -/
+example : specText exCtx exEnv [.val (.sig 1) "c".toList] = .error .overflow := by decide
+example : specText exCtx exEnv (printChunks [[.lit "a".toList], [.val (.sig 1) "c".toList]] " ".toList "z".toList)
+    = .error .overflow := by decide
 
 /-! ### F20: the compiler as found splices the spec into the format string
 
